@@ -112,6 +112,10 @@ def gen_type(rng, structs, enums, depth, profile):
             k = rng.choice(["arr", "dyn", "opt", "arr", "dyn", "opt", "struct"])
             if k == "struct" and structs:
                 return ("struct", rng.choice(structs))
+            if k in ("arr", "dyn") and rng.random() < 0.25:
+                # byte arrays (payloads, blobs): the element types an implementation is most tempted to special-case
+                el = rng.choice([("i", 8), ("u", 8), ("i", 16), ("i", 32), ("u", 16)])
+                return ("arr", el, rng.randint(1, 4)) if k == "arr" else ("dyn", el)
             if k == "arr":
                 return ("arr", gen_type(rng, structs, enums, depth - 1, profile), rng.choice([1, 2, 3, 4, 1, 2, 0]) if rng.random() < 0.15 else rng.randint(1, 4))
             if k == "dyn":
